@@ -39,6 +39,8 @@ FAMILIES = {
     "c12-nested-scale": dict(n_axes=1, layout="onaxis", n_glyphs=12, composites=0.6, nested=True, transforms="scale", curves="quad"),
     "c12-nested-rotate": dict(n_axes=2, layout="onaxis", n_glyphs=10, composites=0.6, nested=True, transforms="rotate", mixed_glyphs=0.3),
     "c12-nonexport-sparse": dict(n_axes=1, layout="intermediate", n_glyphs=12, composites=0.6, nested=True, transforms="scale", non_export=3, sparse_glyphs=0.4, sparse_layers=1),
+    "c12-sparse-leaf": dict(n_axes=1, layout="intermediate", n_glyphs=12, composites=0.6, nested=False, transforms="scale", sparse_glyphs=0.7),
+    "c12-sparse-leaf2": dict(n_axes=2, layout="mixed", n_glyphs=12, composites=0.6, nested=False, transforms="none", sparse_glyphs=0.7, mixed_glyphs=0.3),
     "c12-mixed-static": dict(n_axes=0, n_glyphs=12, composites=0.6, nested=True, transforms="scale", mixed_glyphs=0.5),
     "c12-overflow": dict(n_axes=1, layout="onaxis", n_glyphs=10, composites=0.6, nested=True, transforms="overflow"),
     "kern-static": dict(n_axes=0, n_glyphs=12, composites=0.0, kern=dict(pairs=25)),
@@ -67,6 +69,7 @@ FAMILIES = {
     "marks-intermediate": dict(n_axes=1, layout="intermediate", n_glyphs=8, composites=0.0, sparse_layers=1, marks=dict(n_groups=3, n_ligs=2)),
     "marks-propagate": dict(n_axes=1, layout="onaxis", n_glyphs=10, composites=0.0, marks=dict(n_groups=3, n_marks=3, uncategorised=0.4, propagate=3)),
     "marks-propagate-static": dict(n_axes=0, n_glyphs=10, composites=0.0, marks=dict(n_groups=2, n_marks=3, uncategorised=0.4, propagate=3)),
+    "marks-stacked": dict(n_axes=1, layout="onaxis", n_glyphs=8, composites=0.0, marks=dict(n_groups=2, n_marks=4, mkmk=0.6, second_only=1.0)),
     "marks-multi": dict(n_axes=1, layout="onaxis", n_glyphs=10, composites=0.0, marks=dict(n_groups=4, n_marks=5, multi_mark=0.6, mkmk=0.7)),
 }
 
@@ -79,7 +82,7 @@ BY_PROPERTY = {
     "C06": ["c06-partial-notdef-mid", "c06-none-notdef-last", "c06-full-notdef-first", "c06-full-nonotdef", "c06-prodnames", "c06-mixed", "static-noorder", "var1-nonexport", "var2-partialorder"],
     "C08": ["c08-1axis", "c08-2axis", "c08-3axis-int", "c08-1axis"],
     "C17": ["c17-special-static", "c17-special-var", "var2-nested-xform", "c17-special-static", "var1-vertical", "c06-partial-notdef-mid", "kern-static"],
-    "C12": ["c12-nested-scale", "c12-nested-rotate", "c12-nonexport-sparse", "c12-mixed-static", "c12-overflow", "var2-nested-xform"],
+    "C12": ["c12-nested-scale", "c12-sparse-leaf", "c12-nested-rotate", "c12-nonexport-sparse", "c12-mixed-static", "c12-overflow", "var2-nested-xform", "c12-sparse-leaf2"],
     # every kind of font the other checks produce, for the walker: layout tables from kerning / anchors / feature code /
     # rules, names from feature code, nested and transformed composites, sparse and diagonal masters, cubic outlines
     "C05": ["var2-nested-xform", "names-var1-collide", "kern-many", "marks-var2", "rules-var2", "var2-mixed-sparse", "names-var1", "var3-diagonal",
@@ -87,7 +90,7 @@ BY_PROPERTY = {
             "marks-intermediate", "rules-var1", "var1-mixedglyphs", "c06-partial-notdef-mid", "names-twin", "var1-vertical", "c12-overflow",
             "kern-static", "marks-static", "var2-diagonal", "rules-var3", "c17-special-static", "var1-nonexport"],
     "C09": ["kern-static", "kern-var1", "kern-divergent", "kern-many", "kern-intermediate", "kern-nogroups", "kern-exceptions", "kern-3x3"],
-    "C10": ["marks-static", "marks-var1", "marks-propagate", "marks-var2", "marks-intermediate", "marks-propagate-static", "marks-multi", "marks-propagate"],
+    "C10": ["marks-static", "marks-var1", "marks-propagate", "marks-var2", "marks-intermediate", "marks-propagate-static", "marks-multi", "marks-propagate", "marks-stacked"],
     "C16": ["rules-var1", "rules-var2", "rules-var2", "rules-var3"],
     "C18": ["names-var1", "names-var2", "names-static", "names-var1-collide", "names-twin", "names-var1-collide"],
     "C19": ["bnd-static", "bnd-var1", "bnd-var2", "bnd-static"],
